@@ -19,6 +19,7 @@ import DriverLib.C13
 import DriverLib.C16
 import DriverLib.C17
 import DriverLib.C18
+import DriverLib.C15
 open Lean Drv
 
 def handlers : List (String → Json → Option (R Json)) := [
@@ -36,6 +37,7 @@ def handlers : List (String → Json → Option (R Json)) := [
   Drv.C16.handle,
   Drv.C17.handle,
   Drv.C18.handle,
+  Drv.C15.handle,
   fun _ _ => none]
 
 def dispatch (line : String) : Json :=
